@@ -9,6 +9,7 @@ import (
 
 	"github.com/taurusgroup/multi-party-sig/pkg/ecdsa"
 	"github.com/taurusgroup/multi-party-sig/pkg/party"
+	"github.com/taurusgroup/multi-party-sig/pkg/pool"
 	"github.com/taurusgroup/multi-party-sig/pkg/protocol"
 	"github.com/taurusgroup/multi-party-sig/protocols/cmp"
 	"github.com/taurusgroup/multi-party-sig/protocols/cmp/presign"
@@ -31,6 +32,13 @@ type camp struct {
 	// judge is the C03 oracle over the honest parties' outcomes; it reports through t.Violation with the given key prefix
 	judge func(t *vk.T, honest []fx.Outcome, keyPrefix, tag string)
 	cheap bool
+	pl    *pool.Pool // nil for most instances; a small worker pool for some (task panics then cross goroutines)
+}
+
+func (c *camp) close() {
+	if c != nil && c.pl != nil {
+		c.pl.TearDown()
+	}
 }
 
 // fault identifies one single deviation of the corrupted party.
@@ -449,6 +457,12 @@ func buildCamp(t *vk.T, name string, n int) *camp {
 		}
 	}
 	th := 1
+	var pl *pool.Pool
+	if (strings.HasPrefix(name, "cmp-") || strings.HasPrefix(name, "doerner-")) && r.Intn(3) == 0 {
+		pl = pool.NewPool(2)
+		c.pl = pl
+		t.Obs("instances_with_worker_pool", 1)
+	}
 	switch name {
 	case "frost-keygen":
 		c.mk = all(func(id party.ID) protocol.StartFunc { return frost.Keygen(group, id, ids, th) })
@@ -492,7 +506,7 @@ func buildCamp(t *vk.T, name string, n int) *camp {
 		ids = c.ids
 		c.leaders = map[party.ID]bool{ids[0]: true, ids[1]: false}
 		c.mk = func() map[party.ID]protocol.StartFunc {
-			return map[party.ID]protocol.StartFunc{ids[0]: doerner.Keygen(group, true, ids[0], ids[1], nil), ids[1]: doerner.Keygen(group, false, ids[1], ids[0], nil)}
+			return map[party.ID]protocol.StartFunc{ids[0]: doerner.Keygen(group, true, ids[0], ids[1], pl), ids[1]: doerner.Keygen(group, false, ids[1], ids[0], pl)}
 		}
 		c.judge = keygenJudge(name, nil)
 	case "doerner-refresh", "doerner-sign":
@@ -508,14 +522,14 @@ func buildCamp(t *vk.T, name string, n int) *camp {
 		if name == "doerner-refresh" {
 			c.leaders = map[party.ID]bool{ids[0]: true, ids[1]: false}
 			c.mk = func() map[party.ID]protocol.StartFunc {
-				return map[party.ID]protocol.StartFunc{ids[0]: doerner.RefreshReceiver(dm.K.R, ids[0], ids[1], nil), ids[1]: doerner.RefreshSender(dm.K.S, ids[1], ids[0], nil)}
+				return map[party.ID]protocol.StartFunc{ids[0]: doerner.RefreshReceiver(dm.K.R, ids[0], ids[1], pl), ids[1]: doerner.RefreshSender(dm.K.S, ids[1], ids[0], pl)}
 			}
 			c.judge = keygenJudge(name, &key)
 		} else {
 			msg := r.Bytes(32)
 			c.leaders = map[party.ID]bool{ids[0]: true, ids[1]: true}
 			c.mk = func() map[party.ID]protocol.StartFunc {
-				return map[party.ID]protocol.StartFunc{ids[0]: doerner.SignReceiver(dm.K.R, ids[0], ids[1], msg, nil), ids[1]: doerner.SignSender(dm.K.S, ids[1], ids[0], msg, nil)}
+				return map[party.ID]protocol.StartFunc{ids[0]: doerner.SignReceiver(dm.K.R, ids[0], ids[1], msg, pl), ids[1]: doerner.SignSender(dm.K.S, ids[1], ids[0], msg, pl)}
 			}
 			c.judge = signJudge(key, msg)
 		}
@@ -523,7 +537,7 @@ func buildCamp(t *vk.T, name string, n int) *camp {
 		fx.InstallPrimeHook()
 		fx.SetPrimeOffset(uint64(r.Intn(1000)))
 		c.cheap = false
-		c.mk = all(func(id party.ID) protocol.StartFunc { return cmp.Keygen(group, id, ids, th, nil) })
+		c.mk = all(func(id party.ID) protocol.StartFunc { return cmp.Keygen(group, id, ids, th, pl) })
 		c.judge = keygenJudge(name, nil)
 	case "cmp-refresh", "cmp-sign", "cmp-presign-offline", "cmp-presign-full", "cmp-presign-online":
 		fx.InstallPrimeHook()
@@ -534,19 +548,19 @@ func buildCamp(t *vk.T, name string, n int) *camp {
 		msg := r.Bytes(32)
 		switch name {
 		case "cmp-refresh":
-			c.mk = all(func(id party.ID) protocol.StartFunc { return cmp.Refresh(fx.CloneCMP(cm.Cfgs[id]), nil) })
+			c.mk = all(func(id party.ID) protocol.StartFunc { return cmp.Refresh(fx.CloneCMP(cm.Cfgs[id]), pl) })
 			c.judge = keygenJudge(name, &key)
 		case "cmp-sign":
-			c.mk = all(func(id party.ID) protocol.StartFunc { return cmp.Sign(cm.Cfgs[id], ids, msg, nil) })
+			c.mk = all(func(id party.ID) protocol.StartFunc { return cmp.Sign(cm.Cfgs[id], ids, msg, pl) })
 			c.judge = signJudge(key, msg)
 		case "cmp-presign-offline":
-			c.mk = all(func(id party.ID) protocol.StartFunc { return cmp.Presign(cm.Cfgs[id], ids, nil) })
+			c.mk = all(func(id party.ID) protocol.StartFunc { return cmp.Presign(cm.Cfgs[id], ids, pl) })
 			c.judge = signJudge(key, msg)
 		case "cmp-presign-full":
-			c.mk = all(func(id party.ID) protocol.StartFunc { return presign.StartPresign(cm.Cfgs[id], ids, msg, nil) })
+			c.mk = all(func(id party.ID) protocol.StartFunc { return presign.StartPresign(cm.Cfgs[id], ids, msg, pl) })
 			c.judge = signJudge(key, msg)
 		case "cmp-presign-online":
-			_, outs, err := fx.RunMulti(r, ids, func(id party.ID) protocol.StartFunc { return cmp.Presign(cm.Cfgs[id], ids, nil) }, fx.Opt{})
+			_, outs, err := fx.RunMulti(r, ids, func(id party.ID) protocol.StartFunc { return cmp.Presign(cm.Cfgs[id], ids, pl) }, fx.Opt{})
 			if err != nil || !fx.AllDone(outs) {
 				t.Inconclusive("presign failed")
 				return nil
@@ -555,7 +569,7 @@ func buildCamp(t *vk.T, name string, n int) *camp {
 			for _, o := range outs {
 				pre[o.ID] = o.Value.(*ecdsa.PreSignature)
 			}
-			c.mk = all(func(id party.ID) protocol.StartFunc { return cmp.PresignOnline(cm.Cfgs[id], pre[id], msg, nil) })
+			c.mk = all(func(id party.ID) protocol.StartFunc { return cmp.PresignOnline(cm.Cfgs[id], pre[id], msg, pl) })
 			c.judge = signJudge(key, msg)
 		}
 	}
@@ -617,6 +631,7 @@ func runCampaign(t *vk.T, which, proto string, n, posIdx, budget, part, parts in
 	if c == nil {
 		return
 	}
+	defer c.close()
 	P := c.ids[posIdx%len(c.ids)]
 	rec, err := c.record(t, P)
 	if err != nil {
